@@ -737,6 +737,19 @@ func trimmedLen(row []gv) int {
 	return n
 }
 
+// inDomain: the value is one the SQL type behind the encoding can hold (so writing it must work)
+func inDomain(v gv) bool {
+	switch kindOf(v.enc) {
+	case kYear:
+		return v.i == 0 || (v.i >= 1901 && v.i <= 2155)
+	case kDec:
+		return v.d.Exponent > -100000 && v.d.Exponent < 100000
+	case kStr:
+		return len(v.b) < 60000
+	}
+	return true
+}
+
 // rt: one value of one encoding: round trip + bytes + decoded token vs model
 func (r *runner) runRT(k kase, askModel bool) {
 	e := r.e
@@ -768,6 +781,10 @@ func (r *runner) runRT(k kase, askModel bool) {
 				e.Rep.Disagree(k, "ok "+got, dm, "decode of the implementation's field bytes")
 			}
 		}
+	}
+	if !strings.HasPrefix(impl, "ok ") && inDomain(v) {
+		e.Rep.Violate(fmt.Sprintf("domain/enc%d", enc), fmt.Sprintf("encoding %d rejects the valid value %s: %s", enc, tok, impl), k)
+		return
 	}
 	if askModel {
 		if mm := r.ask(fmt.Sprintf("enc %d %s", enc, tok)); mm != impl {
@@ -1194,7 +1211,7 @@ func genDatetime(r *hx.Rng) int64 {
 }
 
 func genDecimal(r *hx.Rng) string {
-	if r.Chance(1, 25) {
+	if r.Chance(1, 12) {
 		return hx.Pick(r, []string{"nan", "inf", "-inf"})
 	}
 	var c *big.Int
@@ -1231,6 +1248,9 @@ func genDecimal(r *hx.Rng) string {
 func decimalNear(r *hx.Rng, tok string) string {
 	p := strings.Split(tok, ":")
 	if len(p) != 3 {
+		if r.Chance(2, 3) {
+			return hx.Pick(r, []string{"nan", "inf", "-inf"})
+		}
 		return genDecimal(r)
 	}
 	c, _ := new(big.Int).SetString(p[1], 10)
